@@ -219,6 +219,8 @@ def answer (line : String) : String :=
         | "GoodThomas" => some .goodThomas | "GoodThomasSmall" => some .goodThomasSmall
         | "Raders" => some .raders | "Bluesteins" => some (.bluesteins len)
         | "RadixN" => some .radixN | "Radix4" => some .radix4 | "Radix3" => some .radix3
+        | "AvxMixedRadix" => some .avxMixedRadix | "AvxRaders" => some .avxRaders
+        | "AvxBluesteins" => some (.avxBluesteins len) | "SseRadix4" => some .sseRadix4
         | _ => none
       let en : Option EntryKind := match entry with
         | "inplace" => some .inplace | "oop" => some .oop | "immut" => some .immut | _ => none
@@ -230,7 +232,9 @@ def answer (line : String) : String :=
           | _ => false
         if ctorPanic then "CTOR-PANIC" else
         let adv := advertised al en len s0 s1
-        s!"adv={adv} | " ++ "; ".intercalate ((calls al en len s0 s1 adv).map Call.text)
+        -- a call handed less scratch than its callee advertises is marked, as the recording mocks of the harness do
+        s!"adv={adv} | " ++ "; ".intercalate ((calls al en len s0 s1 adv).map (fun c =>
+          c.text ++ (if c.scratch.len < c.need s0 s1 then " STARVED" else "")))
       | _, _ => "bad-op"
     | _ => "bad-op"
   | ["mulrem", a, b, d] =>
